@@ -13,6 +13,8 @@ POOL = [
     (('a', 'b', 'c'), ('p', 'q', 'r'), ((True, True, False), (False, True, True), (False, False, False))),
     ((), (), ()),
     (('b',), ('q', 'p', 'r'), ((False, True, True),)),
+    (('c', 'a'), ('p', 's'), ((False, False), (True, False))),   # adds names but no new true cell to pool[0], pool[1]
+    (('e',), ('t',), ((False,),)),                                # names only
 ]
 
 EDITS = [
